@@ -1,5 +1,7 @@
 (* Naive (scan-based) navigation over a slot array: what the optimised container's
    linked lists must agree with (C11), and what the update models navigate with.
+   Everything here only looks at which variables an entry acts on, so the same functions
+   serve operator strings and their skeletons.
    Model file: definitions only. *)
 From Coq Require Import List Bool Arith.
 From QmcV Require Import Model.Sse.
@@ -11,49 +13,77 @@ Fixpoint index_of (v : nat) (vs : list nat) : option nat :=
   | x :: r => if Nat.eqb x v then Some 0 else option_map S (index_of v r)
   end.
 
-(* positions (p, relative index) of the operators acting on variable v, in time order *)
-Fixpoint ops_on_var_from (p : nat) (sl : slots) (v : nat) : list (nat * nat) :=
+Section Generic.
+Context {A : Type} (vf : A -> list nat).
+
+(* positions (p, relative index) of the entries acting on variable v, in time order *)
+Fixpoint g_ops_on_var_from (p : nat) (sl : list (option A)) (v : nat) : list (nat * nat) :=
   match sl with
   | [] => []
-  | None :: r => ops_on_var_from (S p) r v
+  | None :: r => g_ops_on_var_from (S p) r v
   | Some o :: r =>
-      match index_of v (o_vars o) with
-      | Some k => (p, k) :: ops_on_var_from (S p) r v
-      | None => ops_on_var_from (S p) r v
+      match index_of v (vf o) with
+      | Some k => (p, k) :: g_ops_on_var_from (S p) r v
+      | None => g_ops_on_var_from (S p) r v
       end
   end.
-Definition ops_on_var (sl : slots) (v : nat) := ops_on_var_from 0 sl v.
+Definition g_ops_on_var (sl : list (option A)) (v : nat) := g_ops_on_var_from 0 sl v.
 
-Fixpoint occupied_from (p : nat) (sl : slots) : list nat :=
+Fixpoint g_occupied_from (p : nat) (sl : list (option A)) : list nat :=
   match sl with
   | [] => []
-  | None :: r => occupied_from (S p) r
-  | Some _ :: r => p :: occupied_from (S p) r
+  | None :: r => g_occupied_from (S p) r
+  | Some _ :: r => p :: g_occupied_from (S p) r
   end.
-Definition occupied (sl : slots) := occupied_from 0 sl.
+Definition g_occupied (sl : list (option A)) := g_occupied_from 0 sl.
+End Generic.
 
 Definition last_lt {A} (key : A -> nat) (p : nat) (l : list A) : option A :=
   fold_left (fun acc x => if Nat.ltb (key x) p then Some x else acc) l None.
 Definition first_gt {A} (key : A -> nat) (p : nat) (l : list A) : option A :=
   find (fun x => Nat.ltb p (key x)) l.
 
-Definition prev_p (sl : slots) (p : nat) : option nat := last_lt (fun x => x) p (occupied sl).
-Definition next_p (sl : slots) (p : nat) : option nat := first_gt (fun x => x) p (occupied sl).
-Definition first_p (sl : slots) : option nat := hd_error (occupied sl).
-Definition last_p (sl : slots) : option nat := hd_error (rev (occupied sl)).
+Section GenericNav.
+Context {A : Type} (vf : A -> list nat).
+Definition g_prev_p (sl : list (option A)) (p : nat) : option nat := last_lt (fun x => x) p (g_occupied sl).
+Definition g_next_p (sl : list (option A)) (p : nat) : option nat := first_gt (fun x => x) p (g_occupied sl).
+Definition g_first_p (sl : list (option A)) : option nat := hd_error (g_occupied sl).
+Definition g_last_p (sl : list (option A)) : option nat := hd_error (rev (g_occupied sl)).
 
-Definition prev_for_var (sl : slots) (p v : nat) : option (nat * nat) := last_lt fst p (ops_on_var sl v).
-Definition next_for_var (sl : slots) (p v : nat) : option (nat * nat) := first_gt fst p (ops_on_var sl v).
-Definition first_for_var (sl : slots) (v : nat) : option (nat * nat) := hd_error (ops_on_var sl v).
-Definition last_for_var (sl : slots) (v : nat) : option (nat * nat) := hd_error (rev (ops_on_var sl v)).
-Definition var_has_ops (sl : slots) (v : nat) : bool :=
-  match ops_on_var sl v with [] => false | _ => true end.
+Definition g_prev_for_var (sl : list (option A)) (p v : nat) : option (nat * nat) := last_lt fst p (g_ops_on_var vf sl v).
+Definition g_next_for_var (sl : list (option A)) (p v : nat) : option (nat * nat) := first_gt fst p (g_ops_on_var vf sl v).
+Definition g_first_for_var (sl : list (option A)) (v : nat) : option (nat * nat) := hd_error (g_ops_on_var vf sl v).
+Definition g_last_for_var (sl : list (option A)) (v : nat) : option (nat * nat) := hd_error (rev (g_ops_on_var vf sl v)).
+Definition g_var_has_ops (sl : list (option A)) (v : nat) : bool :=
+  match g_ops_on_var vf sl v with [] => false | _ => true end.
 
-Definition get_op (sl : slots) (p : nat) : option op :=
+Definition g_get (sl : list (option A)) (p : nat) : option A :=
   match nth_error sl p with Some (Some o) => Some o | _ => None end.
 
 (* periodic neighbours along a world line *)
-Definition prev_wrap (sl : slots) (p v : nat) : option (nat * nat) :=
-  match prev_for_var sl p v with Some x => Some x | None => last_for_var sl v end.
-Definition next_wrap (sl : slots) (p v : nat) : option (nat * nat) :=
-  match next_for_var sl p v with Some x => Some x | None => first_for_var sl v end.
+Definition g_prev_wrap (sl : list (option A)) (p v : nat) : option (nat * nat) :=
+  match g_prev_for_var sl p v with Some x => Some x | None => g_last_for_var sl v end.
+Definition g_next_wrap (sl : list (option A)) (p v : nat) : option (nat * nat) :=
+  match g_next_for_var sl p v with Some x => Some x | None => g_first_for_var sl v end.
+End GenericNav.
+
+(* operator-string instances *)
+Definition ops_on_var := g_ops_on_var o_vars.
+Definition occupied : slots -> list nat := g_occupied.
+Definition prev_p : slots -> nat -> option nat := g_prev_p.
+Definition next_p : slots -> nat -> option nat := g_next_p.
+Definition first_p : slots -> option nat := g_first_p.
+Definition last_p : slots -> option nat := g_last_p.
+Definition prev_for_var := g_prev_for_var o_vars.
+Definition next_for_var := g_next_for_var o_vars.
+Definition first_for_var := g_first_for_var o_vars.
+Definition last_for_var := g_last_for_var o_vars.
+Definition var_has_ops := g_var_has_ops o_vars.
+Definition get_op : slots -> nat -> option op := g_get.
+Definition prev_wrap := g_prev_wrap o_vars.
+Definition next_wrap := g_next_wrap o_vars.
+
+(* skeleton instances *)
+Definition skel := (list nat * nat * bool)%type.
+Definition sk_vars (k : skel) : list nat := fst (fst k).
+Definition sk_const (k : skel) : bool := snd k.
